@@ -17,6 +17,7 @@
 (*   [k |-> kind, v |-> sequence of chunks (sequences of indices), n |-> int]*)
 (*   read/readline: k = "b", one chunk      readlines: k = "l", chunk/line  *)
 (*   seek: k = "z" (return value not specified, see D4)   tell: k = "t", n  *)
+(*   faulted call: k = "x" (the caller's exception), k = "s" (short result) *)
 (* API variants with the same meaning are not separate actions: next() and *)
 (* next(iter(member), b'') are readline(); readlines(0 / -1 / None) is     *)
 (* readlines(); seek(off) is seek(off, 0); keyword forms -- the harness     *)
@@ -41,6 +42,7 @@ CONSTANTS Bytes,        \* byte values a data cell may hold (model: {10, 120})
           SeekMax,      \* seek targets 0..SeekMax (closes the state space)
           Hints,        \* arguments h >= 1 of readlines(h) ({}: action not explored)
           IterSingleLine, \* TRUE would re-admit the old one-line outcome of list(member) (fixed: always FALSE)
+          Faults,       \* subset of {"raise", "short"}: faults of the CALLER's file object explored (see AFault)
           Ops,          \* FALSE: only the index (Open) is explored
           Emit          \* TRUE: print one EDGE / INDEX line per evaluated action instance
 
@@ -142,6 +144,31 @@ AIter(m, k) ==
     /\ k = Len(sp) \/ (IterSingleLine /\ k = Lo(1, Len(sp)))
     /\ ACall(m, Res("l", SubSeq(sp, 1, k), 0), pos[m] + TakeLen(sp, k))
     /\ Edge("iter", m, <<k>>)
+\* ---- faults of the file object the CALLER supplied (ArFile(fileobj=f)), then carry on.
+\* The file object raises during a call on member m ("raise"): the caller's exception propagates, nothing
+\* is returned.  One-step calls (read, read(n), readline, readline(n)) are atomic: the position is unchanged.
+\* Multi-line calls (readlines, list(member)) are successive readline()s: k complete lines were consumed
+\* before the failing one, the position is behind them.  Nothing else changes, so every later call -- on
+\* this member, on the others, on a new ArFile over the same input -- behaves as if nothing had happened
+\* at the position tell() reports.
+AFault(m, kind, k) ==
+    LET sp == BLineSpans(D(m), pos[m]) IN
+    /\ "raise" \in Faults
+    /\ kind \in {"one", "lines"}
+    /\ k \in 0..(IF kind = "lines" THEN Len(sp) ELSE 0)
+    /\ ACall(m, Res("x", <<>>, 0), pos[m] + TakeLen(sp, k))
+    /\ Edge("fault", m, <<kind, k>>)
+\* The file object returns SHORT (fewer bytes than asked for, possibly none) during a reading call: what
+\* the call returns is not the in-memory result, but it still is the member's own next k bytes, nothing
+\* skipped or duplicated, and the position is behind them (chunking of the k bytes is not specified).
+AShort(m, k) ==
+    /\ "short" \in Faults
+    /\ k \in 0..BAvail(D(m), pos[m])
+    /\ ACall(m, Res("s", <<Span(pos[m], k)>>, 0), pos[m] + k)
+    /\ Edge("short", m, <<k>>)
+\* ArFile(fileobj=f) itself fails with the caller's exception: no object exists, nothing changed
+AOpenFault == /\ "raise" \in Faults /\ ~opened /\ UNCHANGED rvars
+
 ASeek(m, off, wh) == LET t == BSeekTarget(D(m), pos[m], off, wh)
                      IN /\ t \in 0..SeekMax
                         /\ ACall(m, Res("z", <<>>, 0), t)
@@ -156,6 +183,8 @@ RNext == \/ AOpen
               \/ \E wh \in 0..2, off \in (0 - SeekMax)..SeekMax : ASeek(m, off, wh)
               \/ \E h \in Hints, k \in 0..(MaxData + 1) : AReadLinesHint(m, h, k)
               \/ \E k \in 0..(MaxData + 1) : AIter(m, k)
+              \/ \E kind \in {"one", "lines"}, k \in 0..(MaxData + 1) : AFault(m, kind, k)
+              \/ \E k \in 0..MaxData : AShort(m, k)
 
 RSpec == RInit /\ [][RNext]_rvars
 RView == <<mem, opened, pos>>       \* aidx, aret, am are outputs: no action reads them
@@ -167,7 +196,7 @@ RTypeOK   == /\ opened \in BOOLEAN /\ Len(mem) <= MaxMembers
 \* the bytes returned by a read are exactly the cells between the old and the new position
 \* (nothing skipped, nothing duplicated, nothing outside 1..len), and lines end at NL or at
 \* the limit / end of data
-RExact    == [][aret'.k \in {"b", "l"} =>
+RExact    == [][aret'.k \in {"b", "l", "s"} =>
                   LET m == am' IN
                   /\ Cat(aret'.v) = Span(pos[m], pos'[m] - pos[m])
                   /\ pos'[m] <= IF pos[m] > Len(D(m)) THEN pos[m] ELSE Len(D(m))]_rvars
